@@ -37,6 +37,11 @@ def run(args):
     distinct_all = set()
     samples_all = []
     sets = option_sets(args.tier)
+    cases = typegen.cases(args.tier, fams)
+    if args.tier == 'quick':
+        # quick: of family S1 only the DEFAULT roles (the generated default compare/set functions depend on -fwide-types
+        # and friends); thorough takes all of S1
+        cases += [c for c in typegen.cases('quick', ['S1']) if '/default' in c.label]
     for oset in sets:
         opts, defs, skip = [], [], []
         for n in oset:
@@ -45,7 +50,7 @@ def run(args):
             defs += d
             skip += list(s)
         before = len(chk.violations)
-        stats, distinct, samples = rtsweep.sweep(chk, args, True, True, opts=tuple(opts), defines=tuple(defs), skip_syntax=tuple(skip), fams=fams,
+        stats, distinct, samples = rtsweep.sweep(chk, args, True, True, opts=tuple(opts), defines=tuple(defs), skip_syntax=tuple(skip), fams=fams, cases=cases,
                                                  workname='c13-%d-%s' % (__import__('os').getpid(), '_'.join(oset) or 'none'), two=False,
                                                  extra_sig=dict(options='+'.join(oset) or 'none'))
         for sig, rep in chk.violations[before:]:
@@ -56,7 +61,7 @@ def run(args):
         if samples and len(samples_all) < 4:
             samples_all.append(dict(options=list(oset), **samples[0]))
     cov = dict(evaluations=total['evaluations'], distinct_nontrivial=len(distinct_all), programs=len(sets) * max(1, allstats['none']['types']),
-               rule='corpus families %s compiled under %d option sets (none, every single option of {-fwide-types,-fcompound-names,-findirect-choice,-fno-include-deps,'
+               rule='corpus families %s (quick: plus the DEFAULT roles of S1, with DEFAULT values at the content-octet boundaries) compiled under %d option sets (none, every single option of {-fwide-types,-fcompound-names,-findirect-choice,-fno-include-deps,'
                     '-fincludes-quoted,-fno-constraints,-no-gen-PER,-no-gen-OER}, %s); under each set every (type,value) gets the full C01 round-trip/transcoding oracle and '
                     'the C02 byte-exact comparison against the same reference DER/UPER/OER bytes (syntaxes dropped by an option are skipped for that set)' % (
                         ','.join(fams), len(sets), 'selected pairs and a 5-option set' if args.tier == 'quick' else 'all pairs and all eight together'),
